@@ -38,6 +38,9 @@ pub const S_CRAFTED_S: u8 = 18;
 // honest signer working from an extended secret whose scalar part is NOT clamped (the documented ad-hoc use of
 // signature_extended / extended_to_public): what signing produces must verify
 pub const S_UNCLAMPED_EXT: u8 = 19;
+// special R (identity, torsion points, non-canonical identity encodings, random) TOGETHER with a degenerate S (0, 1,
+// 8, L-1, L) under the honest large-order key: the equation cannot hold; judged by the model
+pub const S_SPECIAL_R_AND_S: u8 = 20;
 const KINDS: &[&str] = &[
     "deliver_untouched",
     "flip_signature_bit",
@@ -59,6 +62,7 @@ const KINDS: &[&str] = &[
     "noncanonical_public_key_encoding",
     "crafted_equation_with_boundary_s",
     "honest_signature_from_unclamped_extended_secret",
+    "special_r_with_degenerate_s",
 ];
 
 /// encodings that decode to the identity but are not its canonical 32 bytes:
@@ -121,7 +125,7 @@ pub fn torsion_message_r(r: &[u8; 32], key: &[u8; 32], mseed: u64) -> Option<Vec
         pre.extend_from_slice(&r);
         pre.extend_from_slice(key);
         pre.extend_from_slice(&m);
-        let h = sha512(&pre);
+        let h = crate::model::sha512::sha512(&pre); // the specified hash (harness implementation), not the library's
         if h[0] & 7 == 0 && big::mod_l(&h)[0] & 7 == 0 {
             return Some(m);
         }
@@ -190,6 +194,13 @@ impl SigChannel {
         // key: the equation holds for ANY S, so only the canonicity rule decides (accept iff S < L)
         for _ in 0..20 {
             ops.push(Op::new(0, S_CRAFTED_S).arg(rng.below(5 * 256 * 3)).off(rng.range(0, 7) as u8).seed(rng.data_seed()));
+        }
+        for r in 0..12u64 {
+            for sv in 0..5u64 {
+                if sv < 2 || (r + sv) % 3 == 0 {
+                    ops.push(Op::new(0, S_SPECIAL_R_AND_S).arg(r | (sv << 8)).seed(rng.data_seed()));
+                }
+            }
         }
         for v in 0..6u64 {
             ops.push(Op::new(0, S_UNCLAMPED_EXT).arg(v).seed(rng.data_seed()));
@@ -437,6 +448,34 @@ impl Scenario for SigChannel {
                     }
                     use_model = true;
                 }
+                S_SPECIAL_R_AND_S => {
+                    let r: [u8; 32] = match op.arg & 0xff {
+                        a @ 0..=7 => TORSION[a as usize],
+                        a @ 8..=10 => NONCANONICAL_IDENTITY[(a - 8) as usize],
+                        _ => {
+                            let mut x = [0u8; 32];
+                            x.copy_from_slice(&data(op.seed | 16, 32));
+                            x
+                        }
+                    };
+                    let mut v = [0u8; 32];
+                    match (op.arg >> 8) % 5 {
+                        0 => {}
+                        1 => v[0] = 1,
+                        2 => v[0] = 8,
+                        3 => {
+                            v = big::L;
+                            v[0] -= 1;
+                        }
+                        _ => v = big::L,
+                    }
+                    s[..32].copy_from_slice(&r);
+                    s[32..].copy_from_slice(&v);
+                    if op.seed & 1 == 1 {
+                        m = data(op.seed ^ 0x3c, 1 + (op.seed % 50) as usize);
+                    }
+                    use_model = true;
+                }
                 S_UNCLAMPED_EXT => {
                     // extended secret = scalar (32 bytes, below 2^255, not clamped) || prefix (32 bytes)
                     let mut ext = [0u8; 64];
@@ -516,6 +555,7 @@ impl Scenario for SigChannel {
                 S_NONCANONICAL_KEY => "fault.byzantine_noncanonical_key_encoding",
                 S_CRAFTED_S => "fault.byzantine_crafted_equation_boundary_s",
                 S_UNCLAMPED_EXT => "channel.untouched_unclamped_extended_signer",
+                S_SPECIAL_R_AND_S => "fault.byzantine_special_r_with_degenerate_s",
                 S_TORSION_NONCANONICAL_R => "fault.byzantine_small_order_key_noncanonical_r",
                 _ => "fault.byzantine_small_order_key",
             });
